@@ -166,13 +166,15 @@ def acceptWrites (cl : Nat) : Nat → List Bytes → Bytes
 
 /-- net/http's server, as far as the properties speak about it (TRUSTED, not modelled further):
     the status and header map of `WriteHeader` go out as they are, except that the statuses
-    1xx/204/304 lose a `Content-Length`; a response to HEAD and those statuses have no body; with a
+    1xx/204/304 lose a `Content-Length` (304 a `Content-Type` too); a response to HEAD and those statuses have no body; with a
     declared `Content-Length` a write beyond it is refused and the connection is cut when fewer
     bytes were written; a handler that writes nothing produces an empty `200`. -/
 def wire (method : Bytes) (o : HandlerOut) : Nat × Bool × Bytes × Header :=
   if !o.wrote then (200, true, [], []) else
   let bodyless := o.status = 304 ∨ o.status = 204 ∨ (100 ≤ o.status ∧ o.status < 200)
-  if bodyless then (o.status, true, [], o.header.del b!"Content-Length") else
+  -- (`suppressedHeaders`: Content-Length for all of them, Content-Type too for 304)
+  if bodyless then (o.status, true, [], if o.status = 304 then (o.header.del b!"Content-Length").del b!"Content-Type"
+                                         else o.header.del b!"Content-Length") else
   if method = b!"HEAD" then (o.status, true, [], o.header) else
   match atoi (o.header.get b!"Content-Length") with
   | some n =>
